@@ -25,7 +25,7 @@ ASSUMPTIONS = [
 ]
 
 C10_REPS = ['f64', 'sliced_view', 'fortran', 'negstride', 'masked',
-            'quantity', 'float32', 'int32']
+            'quantity', 'float32', 'int32', 'bigendian_f8', 'bigendian_i4']
 CONDITIONS = ['clean', 'negatives', 'nonfinite', 'nan_under_mask', 'all']
 
 
